@@ -67,7 +67,7 @@ func zzHeader(h *eth.Header, want uint64) {
 		zzNodeHeader(h, want)
 		if zzAllowFail && zzvrf.Bool("honest-node-answers-with-a-wrong-number") {
 			// a decodable but inconsistent answer: rejected by validation
-			zzFailures++
+			zzCountFailure()
 			h.Number = eth.Uint64(want + 1)
 		}
 		return
@@ -154,7 +154,7 @@ func zzDo(c *Client, ctx context.Context, url string, dest, req any) error {
 		return errors.New("transport")
 	}
 	if zzMode == 1 && zzAllowFail && zzvrf.Bool("honest-node-transport-error") {
-		zzFailures++
+		zzCountFailure()
 		return errors.New("transport")
 	}
 	switch dest.(type) {
@@ -409,3 +409,11 @@ var ZZOnCall func(c *Client)
 // modelled by explicit announcements where a harness needs them
 func zzNoPoll(c *Client, ctx context.Context, url string) {}
 func zzNoListen(c *Client, ctx context.Context)           {}
+
+// zzCountFailure: the failure counter is shared by concurrent callers of the
+// stub (C08/C18 harnesses), so it is kept under the stub's lock.
+func zzCountFailure() {
+	zzMu.Lock()
+	zzFailures++
+	zzMu.Unlock()
+}
